@@ -1,8 +1,9 @@
 (* C04 — executable model of content negotiation in webob/acceptparse.py (definitions only, no proofs).
 
    Mirrors, in the same order and with the same data structures:
-     Accept.parse_offer / _parse_media_type_params / _process_quoted_string_token   acceptparse.py:329-353, 480-514
-       (with fixes/C04-offer-trailing-newline.patch: the media type regex is anchored with \Z)
+     Accept.parse_offer / _parse_media_type_params / _process_quoted_string_token   acceptparse.py:329-353, 480-530
+       (with fixes/C04-offer-trailing-newline.patch: the media type regex is anchored with \Z, and
+        fixes/C04-2-acceptoffer-instances-normalised.patch: AcceptOffer instances are validated and lower-cased)
      Accept._parse_and_normalize_offers                                             acceptparse.py:516-534
      AcceptValidHeader.acceptable_offers  (dict keyed by offer, strict improvement,
        q=0 filter, sort by (q, -index) reverse=True)                                acceptparse.py:900-1013
@@ -35,7 +36,7 @@ Definition is_qpchar (c : N) : bool :=
 Fixpoint span (f : N -> bool) (s : str) : str * str :=
   match s with
   | [] => ([], [])
-  | c :: s' => if f c then (c :: fst (span f s'), snd (span f s')) else ([], s)
+  | c :: s' => if f c then let r := span f s' in (c :: fst r, snd r) else ([], s)
   end.
 
 (* ------------------------------------------------------------------ media type scanner *)
@@ -163,15 +164,25 @@ Definition parse_offer_str (s : str) : option poffer :=
   | _, _ => None
   end.
 
-(* an element of `offers`: a str, or an AcceptOffer instance (returned as is by parse_offer) *)
+(* an element of `offers`: a str, or an AcceptOffer instance *)
 Inductive offer :=
 | OStr (s : str)
 | OObj (ty st : str) (ps : params).
 
+(* token_compiled_re.fullmatch *)
+Definition is_token (s : str) : bool := match s with [] => false | _ :: _ => forallb is_tchar s end.
+
+(* with fixes/C04-2-acceptoffer-instances-normalised.patch: a pre-parsed offer is held to the rules of its text
+   form - token components, no parameter named q, no wildcard - and is lower-cased like a str offer *)
 Definition parse_offer (o : offer) : option poffer :=
   match o with
   | OStr s => parse_offer_str s
-  | OObj ty st ps => Some (ty, st, ps)
+  | OObj ty st ps =>
+      if is_token ty && is_token st
+         && forallb (fun p => is_token (fst p)) ps && negb (existsb (fun p => is_q_name (fst p)) ps)
+      then if str_eqb ty star || str_eqb st star then None
+           else Some (lower ty, lower st, lower_names ps)
+      else None
   end.
 
 Fixpoint params_eqb (a b : params) : bool :=
